@@ -784,3 +784,17 @@ func (c *Contract) mentions(name string) bool {
 	}
 	return false
 }
+
+// ticks reports whether this contract owns the ghost counter name.
+func (c *Contract) ticks(name string) bool {
+	for _, cl := range c.Clauses {
+		if cl.Kind == "at" {
+			for _, t := range tickNames(cl.Text) {
+				if t == name {
+					return true
+				}
+			}
+		}
+	}
+	return false
+}
